@@ -27,6 +27,11 @@ func randomWholeCases(seed int64, n int) []wholeCase {
 				return gC(chars[rng.Intn(len(chars))])
 			case 5:
 				lo, hi := chars[rng.Intn(3)], chars[rng.Intn(3)]
+				if lo > hi {
+					// an inverted range next to a dot makes -switch write a case label for every code point
+					// (a 15 MB file from the real generator, more steps than the evaluation allows)
+					lo, hi = hi, lo
+				}
 				return &gexpr{Op: "range", S: lo + hi}
 			case 6:
 				return gDot()
